@@ -33,7 +33,7 @@ var futOps = []struct{ name, text string }{
 	{"cancelled?", "(future-cancelled? f)"},
 	{"cancel", "(future-cancel f)"},
 	{"deref-cancellable", "(deref f)"}, // evaluated under the scenario's cancellable caller context
-	{"end-caller-context", ""},       // harness operation: that caller context ends (like a deadline passing)
+	{"end-caller-context", ""},         // harness operation: that caller context ends (like a deadline passing)
 }
 
 type futOp struct {
@@ -44,21 +44,21 @@ type futOp struct {
 }
 
 type c10state struct {
-	scope    types.EnvType
-	fut      *concurrent.Future
-	clock    int
-	hist     []*futOp
-	bodyEnd  int // clock value when the body goroutine reached the delivery of its outcome (0: not yet)
-	bodyExit int // clock value when the body goroutine ended (0: not yet)
-	sent     bool
-	bodyRuns int
-	waiting  bool // body is parked in wait-cancel!
-	bodyCtx  context.Context // the context the body runs under (recorded by the probe! builtin)
+	scope       types.EnvType
+	fut         *concurrent.Future
+	clock       int
+	hist        []*futOp
+	bodyEnd     int // clock value when the body goroutine reached the delivery of its outcome (0: not yet)
+	bodyExit    int // clock value when the body goroutine ended (0: not yet)
+	sent        bool
+	bodyRuns    int
+	waiting     bool            // body is parked in wait-cancel!
+	bodyCtx     context.Context // the context the body runs under (recorded by the probe! builtin)
 	callersDone int
-	callerCtx    *c10callerCtx // context of the deref-cancellable operations
-	selectNext   bool          // the running thread just passed Deref's wait: its select comes next
-	tornDown    bool // the harness released a body that waits for a cancellation nobody issued
-	teardownAt  int  // clock value at that moment: operations returning later are not judged
+	callerCtx   *c10callerCtx // context of the deref-cancellable operations
+	selectNext  bool          // the running thread just passed Deref's wait: its select comes next
+	tornDown    bool          // the harness released a body that waits for a cancellation nobody issued
+	teardownAt  int           // clock value at that moment: operations returning later are not judged
 }
 
 func init() {
@@ -463,11 +463,11 @@ func init() {
 			}
 		}
 		fam := &vf.Family{
-			Name:    "future-scenarios",
-			Bounds:  "4 future bodies (returns, throws, waits for cancellation, ignores cancellation) x caller plans: one thread with every sequence of 1-3 operations over {deref, done?, cancelled?, cancel, deref under a cancellable caller context, end of that caller context}; two threads with 1-2 operations each (quick: <=3 operations in total); three threads x 1 operation (quick: only triples with a cancellable deref and the end of its caller context); per scenario all interleavings at the hook points of lib/concurrent (spawn, deliver, deliver->flag, cancel check/set, deref wait/re-deposit) up to preemption bound 2 (quick) / 3 (thorough)",
-			Setup:   setup,
-			Timeout: 120 * time.Second,
-			N:       func(t string) int64 { tier = t; return int64(len(plansOf())) },
+			Name:     "future-scenarios",
+			Bounds:   "4 future bodies (returns, throws, waits for cancellation, ignores cancellation) x caller plans: one thread with every sequence of 1-3 operations over {deref, done?, cancelled?, cancel, deref under a cancellable caller context, end of that caller context}; two threads with 1-2 operations each (quick: <=3 operations in total); three threads x 1 operation (quick: only triples with a cancellable deref and the end of its caller context); per scenario all interleavings at the hook points of lib/concurrent (spawn, deliver, deliver->flag, cancel check/set, deref wait/re-deposit) up to preemption bound 2 (quick) / 3 (thorough)",
+			Setup:    setup,
+			Timeout:  120 * time.Second,
+			N:        func(t string) int64 { tier = t; return int64(len(plansOf())) },
 			Describe: func(i int64) string { return planStr(plansOf()[i]) },
 			Run: func(i int64, r *vf.Rec) {
 				p := plansOf()[i]
@@ -506,11 +506,11 @@ func init() {
 			{name: "deref-of-future-made-earlier", pre: "(def early (future (do (sleep 60) 9)))", text: "(deref early)", future: true},
 		}
 		famDl := &vf.Family{
-			Name:    "derefs-under-deadlines",
-			Bounds:  "5 programs that deref a future whose body sleeps and then returns or throws, run once without a deadline (completion at poll T of the virtual clock) and then under a caller deadline at every instant k in (T+3, 2T+10] and at 10T, 40T: the deref must deliver the same outcome and effects as without a deadline",
-			Setup:   func(t string) { tier = t; dlRig.setup() },
-			Timeout: 60 * time.Second,
-			N:       func(string) int64 { return int64(len(dlShapes)) },
+			Name:     "derefs-under-deadlines",
+			Bounds:   "5 programs that deref a future whose body sleeps and then returns or throws, run once without a deadline (completion at poll T of the virtual clock) and then under a caller deadline at every instant k in (T+3, 2T+10] and at 10T, 40T: the deref must deliver the same outcome and effects as without a deadline",
+			Setup:    func(t string) { tier = t; dlRig.setup() },
+			Timeout:  60 * time.Second,
+			N:        func(string) int64 { return int64(len(dlShapes)) },
 			Describe: func(i int64) string { return "deadline after completion: " + dlShapes[i].text },
 			Run: func(i int64, r *vf.Rec) {
 				sh := dlShapes[i]
@@ -540,10 +540,10 @@ func init() {
 		}
 		return &vf.Check{
 			RacePass: c10RacePass,
-			ID: "C10", Level: "model_checking",
-			Rule: "every scenario (future body x caller threads x operations) is explored by the controlled scheduler over the real lib/concurrent with hook points in the deliver->flag, check->set and take->re-deposit windows; on every complete execution: the body ran exactly once, all derefs agree, status predicates are monotone in real-time order, done? is true after any deref returned and after a successful cancel, cancelled? is true after a successful cancel and never without one, cancel does not return false on a running future, and nothing blocks forever except derefs of a future that legitimately never completes; non-trivial = scenario with a context switch inside an operation",
+			ID:       "C10", Level: "model_checking",
+			Rule:        "every scenario (future body x caller threads x operations) is explored by the controlled scheduler over the real lib/concurrent with hook points in the deliver->flag, check->set and take->re-deposit windows; on every complete execution: the body ran exactly once, all derefs agree, status predicates are monotone in real-time order, done? is true after any deref returned and after a successful cancel, cancelled? is true after a successful cancel and never without one, cancel does not return false on a running future, and nothing blocks forever except derefs of a future that legitimately never completes; non-trivial = scenario with a context switch inside an operation",
 			Assumptions: []string{"plain (unsynchronised) flag accesses are atomic under the cooperative scheduler; data races on them are the race pass's job", "the caller context of the cancellable derefs is the harness's own type: Deref's select between an ended context and an available outcome is decided by the scheduler (outcome arm forced, context arm drawn and re-run until drawn)"},
-			Families: []*vf.Family{fam, famDl},
+			Families:    []*vf.Family{fam, famDl},
 		}
 	})
 }
